@@ -1106,8 +1106,9 @@ static int exec_line(char* line)
   else if (strcmp(op, "cadd") == 0 || strcmp(op, "caddfile") == 0 || strcmp(op, "caddfd") == 0)
   {
     int c = slot(tk[1], NCOMP);
-    if (!comps[c])
+    if (!comps[c] || comp_errors[c])
     {
+      // no compiler, or a previous add failed (the API forbids adding more sources then)
       fprintf(out, "{\"op\":\"cadd\",\"errors\":-2,\"skipped\":1,\"nerr\":0,\"nwarn\":0,\"msgs\":[]}\n");
       fflush(out);
       return 0;
